@@ -47,6 +47,13 @@ def pool(ctx, n):
         many_calls += [G("verif_sink", "hit"), K(k), O("TUPLE1"), O("REDUCE")]
     many_calls += [O("STOP")]
     hand += [many_unused, many_imports, many_calls]
+    # sub-modules of the documented dangerous modules (rules that walk up the parents of a dotted module), twice in one
+    # program and in two different programs of the pool
+    hand += [[G("urllib.request", "urlopen"), O("POP"), G("urllib.request", "urlretrieve"), O("STOP")],
+             [G("urllib.request", "urlopen"), K("http://x"), O("TUPLE1"), O("REDUCE"), O("STOP")],
+             [G("os.path", "join"), K("a"), K("b"), O("TUPLE2"), O("REDUCE"), O("STOP")],
+             [G("os.path", "exists"), O("STOP")],
+             [G("torch.hub", "load"), O("STOP")], [G("torch.hub.x", "load"), O("POP"), G("torch.hub", "load"), O("STOP")]]
     out = [assemble(h) for h in hand]
     vals = [[decimal.Decimal("1.5"), decimal.Decimal("1.5")], [fractions.Fraction(1, 2)] * 3,
             {"a": {1, 2, 3}, "b": frozenset("xyz")}, {"k%d" % i: i for i in range(12)},
